@@ -44,6 +44,8 @@ pub struct Shared {
     pub delay_us: u64,
     pub collect_llrs: bool,
     pub k: usize,
+    /// build_decoder() takes this long (decoders of large codes are slow to build): early workers run ahead of the collector
+    pub build_delay_ms: std::sync::atomic::AtomicU64,
 }
 
 #[derive(Default, Clone, Debug)]
@@ -87,6 +89,8 @@ impl std::fmt::Display for ScriptedFactory {
 impl DecoderFactory for ScriptedFactory {
     fn build_decoder(&self, _h: SparseMatrix) -> Box<dyn LdpcDecoder> {
         let id = self.shared.built.fetch_add(1, Ordering::SeqCst);
+        let d = self.shared.build_delay_ms.load(Ordering::SeqCst);
+        if d > 0 { std::thread::sleep(std::time::Duration::from_millis(d)); }
         Box::new(ScriptedDecoder { id, seq: 0, shared: self.shared.clone(), script: self.script.clone(), rng: 0x9E3779B97F4A7C15u64.wrapping_mul(id as u64 + 1) })
     }
 }
@@ -154,7 +158,8 @@ impl LdpcDecoder for ScriptedDecoder {
 impl ScriptedDecoder {
     fn rec(&self, seq: u64, llrs: &[f64], hard: &[u8], act: &str, flips: usize, iters: usize, ok: bool) {
         let mut f = self.shared.frames.lock().unwrap();
-        if f.len() < self.shared.keep_frames || act == "panic" {
+        // per-decoder cap (seq counts the frames of THIS decoder): free-running workers may produce millions of frames
+        if (f.len() < self.shared.keep_frames && seq < 400) || act == "panic" {
             f.push(FrameRec { worker: self.id, seq, len: llrs.len(), zero_pos: (0..llrs.len()).filter(|&i| llrs[i] == 0.0).collect(),
                 hard: hard.to_vec(), act: act.to_string(), flips, iters, ok });
         }
@@ -163,7 +168,7 @@ impl ScriptedDecoder {
 
 pub fn shared(k: usize, keep_frames: usize, delay_us: u64, collect_llrs: bool) -> Arc<Shared> {
     Arc::new(Shared { frames: Mutex::new(vec![]), llr_stats: Mutex::new(LlrStats::default()), built: AtomicUsize::new(0), dropped: AtomicUsize::new(0),
-        total_frames: AtomicU64::new(0), keep_frames, delay_us, collect_llrs, k })
+        total_frames: AtomicU64::new(0), keep_frames, delay_us, collect_llrs, k, build_delay_ms: AtomicU64::new(0) })
 }
 
 /// A systematic code with n_cw columns and r rows: H = [A | T], T lower-triangular with unit diagonal (invertible),
